@@ -196,17 +196,18 @@ func symID(c macaroon.Caveat) int64 {
 }
 
 type c16Act struct {
-	Kind   string
-	T      string // tref kind
-	TI     uint64
-	Mode   string
-	Cavs   []uint64
-	Status uint64
-	Msg    uint64
-	S      string // sref kind
-	F      uint64
-	Dec    string
-	InCtx  bool // background decision made with the context of the latest request the application handled (another flow's, usually)
+	Kind    string
+	T       string // tref kind
+	TI      uint64
+	Mode    string
+	Cavs    []uint64
+	Status  uint64
+	Msg     uint64
+	S       string // sref kind
+	F       uint64
+	Dec     string
+	Refused bool // Go-side only: scripted approval whose caveat list the discharge cannot take (see the refused-caveats branch)
+	InCtx   bool // background decision made with the context of the latest request the application handled (another flow's, usually)
 }
 
 func (a c16Act) tref() string {
@@ -473,8 +474,17 @@ func genC16(c *ctx) {
 		}
 	}
 	cavPool := []uint64{1, 2, 6, 7, 13, 14}
-	for i := 0; i < n; i++ {
-		r := c.r.Fork()
+	// round 8: after the n random histories, a fixed block of scripted ones from their own generator (so the streams of the
+	// random histories do not move): a flow is decided (aborted or approved), THEN the application attempts an approval whose
+	// caveats the discharge refuses, on the same flow; the stored decision must survive the failed attempt and be collected once
+	const refusedAfterDecision = 16
+	for i := 0; i < n+refusedAfterDecision; i++ {
+		var r *rng.R
+		if i < n {
+			r = c.r.Fork()
+		} else {
+			r = rng.New(0xC16A8000 + uint64(i-n))
+		}
 		w := newC16World(r)
 		var acts []c16Act
 		var obs [][]int64
@@ -542,6 +552,25 @@ func genC16(c *ctx) {
 			}
 			steps += len(script)
 		}
+		if i >= n {
+			j := i - n
+			mode := []string{"MPoll", "MUser"}[j%2]
+			first := []string{"AAbortPoll", "AApprovePoll"}[(j/2)%2]
+			refK, refS := "AApprovePoll", "SPoll"
+			if mode == "MUser" && (j/4)%2 == 1 {
+				refK, refS = "AApproveUser", "SUser"
+			}
+			script = []c16Act{
+				{Kind: "AInit", T: "TValid", TI: 0, Mode: mode},
+				{Kind: first, Cavs: randCavs(), Msg: uint64(j % 5), S: "SPoll", F: 0},
+				{Kind: refK, Cavs: randCavs(), S: refS, F: 0, Refused: true},
+				{Kind: "APoll", S: "SPoll", F: 0}, {Kind: "APoll", S: "SPoll", F: 0},
+			}
+			if (j/8)%2 == 1 { // the refused attempt twice, and a second flow opened in between
+				script = append(script[:3], append([]c16Act{{Kind: "AInit", T: "TValid", TI: 1, Mode: "MPoll"}, {Kind: refK, Cavs: randCavs(), S: refS, F: 0, Refused: true}}, script[3:]...)...)
+			}
+			steps = len(script) + r.Intn(4)
+		}
 		for k := 0; k < steps; k++ {
 			var a c16Act
 			if k < len(script) {
@@ -572,7 +601,7 @@ func genC16(c *ctx) {
 			// whole. Immediate mode has no model action for it (nothing is stored either way): it is run on the implementation
 			// only and must answer an internal error without releasing anything. A background approval with such caveats
 			// behaves like an approval for an unknown secret (fails, changes nothing), which is the action the model is given.
-			if k >= len(script) && r.P(1, 8) && (a.Kind == "AApprovePoll" || a.Kind == "AApproveUser" || (a.Kind == "AInit" && a.Mode == "MImmediate" && a.T == "TValid")) {
+			if (a.Refused || (k >= len(script) && r.P(1, 8))) && (a.Kind == "AApprovePoll" || a.Kind == "AApproveUser" || (a.Kind == "AInit" && a.Mode == "MImmediate" && a.T == "TValid")) {
 				bad := a
 				bad.Cavs = append(append([]uint64{}, a.Cavs...), 5)
 				if r.Bool() {
